@@ -4,7 +4,12 @@ Decided: purity of calc w.r.t. its input (effect analysis with receiver provenan
 the frame of the scheduler's writes (round 8/9: per-call state re-initialised by calc, fields of the per-call ledger / parameter
 object and memo caches filled by getters are not writes in the sense of this property), definite assignment of start/end, freshness of ledger and memo, the enumerated
 nondeterminism sources, and for every clock read of the forward scheduler whether it is neutralised by a term bounded
-below by the project start.  Not decided: statefulness of user supplied IResource.reserve; bitwise float equality.
+below by the project start.
+Round 11: a running maximum (`acc = B; for ..: if E > acc: acc = E`) is bounded below by B; an operand of the guarding max that is a
+local with several reaching assignments is judged case by case (cases equal to task.start are the known fixed-start finding); the maps
+clone() works with are keyed by the id itself (`str(t.id)` merges 1 and '1'); `_unique_tasks` behind the dependency setters compares
+objects, not ids (the links a copy receives); `x.estimate = ..` / `x.spent = ..` on an untyped receiver are data-field writes.
+Not decided: statefulness of user supplied IResource.reserve; bitwise float equality.
 """
 from __future__ import annotations
 
